@@ -494,6 +494,7 @@ def snap_msg(m):
         "content": m.raw_content,
         "trailers": tuple(m.trailers.fields) if m.trailers else None,
     }
+    d["stream"] = bool(m.stream)
     if hasattr(m, "method"):
         d.update(method=m.method, scheme=m.scheme, authority=m.authority, path=m.path, host=m.host, port=m.port)
     else:
